@@ -661,6 +661,13 @@ impl Monitor for C09 {
                         vec![V::R(gen_real(&mut rng, allow_nan)), V::I(gen_int(&mut rng))]
                     }
                 }
+                17 if n == 2 => {
+                    // two non-numeric operands, equal or not: still not numbers
+                    let a = gen_other(&mut rng);
+                    let b = if rng.flip() { a.clone() } else { gen_other(&mut rng) };
+                    obs.count("tuples_with_two_non_numeric_operands");
+                    vec![a, b]
+                }
                 _ => {
                     // one non-numeric operand
                     let mut v: Vec<V> = (0..n).map(|_| if rng.flip() { V::I(gen_int(&mut rng)) } else { V::R(gen_real(&mut rng, allow_nan)) }).collect();
